@@ -162,6 +162,11 @@ func c08GenNegotiate(c *Ctx) {
 		for i := 0; i < c.N(150, 3000); i++ {
 			neg(c08RandName(r), c08RandName(r), u)
 		}
+		for i := 0; i < c.N(30, 300); i++ {
+			c.Case("spnego.create_negotiate_token", S(c08RandName(r)), S(c08RandName(r)), Bool(u))
+		}
+		c.Case("spnego.create_negotiate_token", S(strings.Repeat("d", 40)), S(strings.Repeat("w", 41)), Bool(u))
+		c.Case("spnego.create_negotiate_token", S(strings.Repeat("d", 40000)), S("w"), Bool(u))
 		// 16-bit length boundary of the descriptors
 		for _, n := range []int{32767, 32768, 65535, 65536, 65537} {
 			neg(strings.Repeat("a", n), "", u)
@@ -434,7 +439,7 @@ func c08GenSpnego(c *Ctx) {
 		wrapResp(1, m, r.Bytes(5), true)
 	}
 	if c.Tier == "thorough" {
-		wrapInit(r.Bytes(1<<24+3), true)
+		wrapInit(r.Bytes(1<<20+3), true)
 	}
 
 	// hand-made DER: every optional field, orders, explicit-tag and length pathologies
